@@ -572,6 +572,15 @@ case('C20', "C20-seed5", "mutant", 'seeded (round 3): Refactor of cmd/regsync/ro
 case('C20', "C20-seed6", "mutant", 'seeded (round 3): Bug-fix style edit of OCIDir.ManifestDelete (scheme/ocidir/manifest.go): an index entry whose manifest blob is',
      patch="seeded/C20-6/patch.diff", expect=[('C20.R1', 'ManifestDelete', "os.Remove path")])
 
+case('C07', "C07-seed5", "mutant", 'seeded (round 3): initIndex writes the marker then an empty index; updateIndex no longer recovers from an unreadable index',
+     patch="seeded/C07-5/patch.diff", expect=[('C07.R6', 'updateIndex', 'marker without index')])
+case('C07', "C07-seed6", "mutant", 'seeded (round 3): import builds manifests from inline descriptor data at once; the finish queue becomes tag-first',
+     patch="seeded/C07-6/patch.diff", expect=[('C07.R7', 'imageImportOCIHandleManifest', 'recursion into a child manifest')])
+case('C10', "C10-seed6", "mutant", 'seeded (round 3): deprecated referrer options delegate to WithReferrerMatchOpt and overwrite the whole MatchOpt',
+     patch="seeded/C10-6/patch.diff", expect=[('C10.R9', 'WithReferrerAT', 'option writes what it was given')])
+case('C11', "C11-seed5", "mutant", 'seeded (round 3): host entry for a mirror built from the upstream entry (keeps CredHost)',
+     patch="seeded/C11-5/patch.diff", expect=[('C11.R10', 'hostNew', 'template of a new host entry')])
+
 # thirty unexported functions the rules know by name, renamed throughout (resolved by role, internal/rules/roles.go)
 for _p in ["C%02d" % i for i in range(1, 21)]:
     case(_p, _p + "-b-rename", "benign", "thirty unexported anchor functions renamed throughout the module", patch="selftest/variants/all-b-rename.diff")
